@@ -328,6 +328,8 @@ type Exec struct {
 	stack      []*ssa.Function
 	forceInline bool
 	noCut      bool
+	escaped    map[*Term]bool
+	times      map[*Term]civil
 	fpBits     map[*Term]*Term
 	fpOf       map[*Term]*Term
 	globalList []*Region
@@ -343,7 +345,7 @@ type Exec struct {
 func newExec(P *Program) *Exec {
 	e := &Exec{P: P, c: NewCtx(), regions: map[*Term]*Region{}, globals: map[*ssa.Global]*Term{},
 		strs: map[string]Val{}, inlined: map[string]bool{}, viaCt: map[string]bool{},
-		assumed: map[string]bool{}, lineHash: map[string]int{}, closures: map[*Term]*closure{}, constGlobals: map[*Term]bool{}, fpBits: map[*Term]*Term{}, fpOf: map[*Term]*Term{}}
+		assumed: map[string]bool{}, lineHash: map[string]int{}, closures: map[*Term]*closure{}, constGlobals: map[*Term]bool{}, fpBits: map[*Term]*Term{}, fpOf: map[*Term]*Term{}, times: map[*Term]civil{}, escaped: map[*Term]bool{}}
 	e.cfg = ExecConfig{unroll: 40, inlineDepth: 8, maxPaths: 20000}
 	e.maxSteps = 3000000
 	for i, w := range heapWidths {
@@ -483,6 +485,11 @@ func (e *Exec) storeVal(st State, a *Term, T types.Type, v Val) State {
 	}
 	for i, k := range sl {
 		hi := k.heapIdx()
+		if k == S64 {
+			if r := addrRoot(v[i]); e.regions[r] != nil && e.regions[r].fresh {
+				e.escaped[r] = true // its address is now reachable through memory
+			}
+		}
 		st.h[hi] = e.store(st.h[hi], e.c.Add(a, e.c.Const(64, uint64(i))), e.toCell(k, v[i]))
 	}
 	return st
